@@ -325,6 +325,21 @@ Proof.
     intros x Hx; cbn in Hx; destruct Hx as [<-|[<-|[]]]; lia.
 Qed.
 
+(* F44 (found by this check): num_neighbors below the 1 + d + d(d+1)/2 columns of the local estimator is
+   accepted by the library; the exact model then necessarily meets a Gram-Schmidt column with u.u = 0
+   (the C++ normalises rounding noise).  Witness: d = 2, k = 5 < 6, six points of a 2-D lattice. *)
+Definition c08_small_k_nbrs : list (list nat) :=
+  [[1; 2; 3; 4; 5]; [0; 2; 3; 4; 5]; [0; 1; 3; 4; 5]; [0; 1; 2; 4; 5]; [0; 1; 2; 3; 5]; [0; 1; 2; 3; 4]].
+Definition c08_small_k_X : mat Qc :=
+  mof [[qz 0; qz 0]; [qz 1; qz 0]; [qz 0; qz 1]; [qz 2; qz 1]; [qz 1; qz 3]; [qz 3; qz 2]].
+
+Theorem C08_hlle_small_k_refuted :
+  hlle_ncols 2 = 6 /\
+  hlle_run_sf (fun x => qeqb x 0%F) false 6 2 c08_small_k_nbrs
+              (fun i a t => c08_small_k_X (nbrs_of c08_small_k_nbrs i a) t) = SolveFail 0.
+Proof. split; vm_compute; reflexivity. Qed.
+Print Assumptions C08_hlle_small_k_refuted.
+
 (* ---------------------------------------------------------------------- *)
 (* 4. selection of the eigenpairs (generated table) and the embedding      *)
 (* ---------------------------------------------------------------------- *)
